@@ -882,6 +882,14 @@ func ruleD11(c *Ctx, id string) {
 		return
 	}
 	n := 0
+	// the places where a lock is given back by the number of an inode object: the call of lockmap.Release itself,
+	// or the call of a private wrapper that hands its parameter on to it ("op.unlockInum(ip.Inum)")
+	type relSite struct {
+		fn  *ssa.Function
+		ci  ssa.Instruction
+		arg ssa.Value
+	}
+	var sites []relSite
 	for _, fn := range P.RepoFuncs() {
 		if fn.Blocks == nil {
 			continue
@@ -891,7 +899,29 @@ func ruleD11(c *Ctx, id string) {
 			if len(as) == 0 {
 				continue
 			}
-			nm, fl, base, _ := loadedField(stripConv(as[0]))
+			a0 := stripConv(as[0])
+			if pm, isP := a0.(*ssa.Parameter); isP && isPrivateHelper(fn) && staticSites != nil {
+				idx := -1
+				for i, q := range fn.Params {
+					if q == pm {
+						idx = i
+					}
+				}
+				for _, site := range staticSites[fn] {
+					cc := fullArgs(site)
+					if idx >= 0 && idx < len(cc) {
+						sites = append(sites, relSite{site.Parent(), site, cc[idx]})
+					}
+				}
+				continue
+			}
+			sites = append(sites, relSite{fn, ci, a0})
+		}
+	}
+	for _, rs := range sites {
+		fn, ci := rs.fn, rs.ci
+		{
+			nm, fl, base, _ := loadedField(stripConv(rs.arg))
 			if nm != V.Inode || fl != "Inum" || base == nil {
 				continue // a lock named by a plain number (SimpleNFS, LockInode's counterpart): no object involved
 			}
